@@ -1,136 +1,24 @@
 package main
 
-// The search space: families (parent kind + children + menu of child lists),
-// operations (one upload each) and their translation into histsim uploads.
-// Nothing in this file calls the annotate packages.
+// The searched spaces. The edit alphabet itself (families, operations, guards,
+// translation into uploads) lives in verif/gen/histsim/space.go so that other
+// checks can enumerate the same histories; nothing there or here calls the
+// annotate packages.
 
 import (
 	"fmt"
-	"time"
-
-	"github.com/paulmach/osm"
 
 	"verif/gen/histsim"
 )
 
-// Family fixes the parent, its possible children and the menu of child lists.
-type Family struct {
-	Name     string
-	Parent   osm.FeatureID
-	Children []osm.FeatureID
-	Names    []string // one letter per child, for shapes and samples
-	Menu     [][]int  // child lists as indices into Children
-	Init     int      // menu index of the parent's first version
-}
-
-var (
-	nodeA = osm.NodeID(1).FeatureID()
-	nodeB = osm.NodeID(2).FeatureID()
-	nodeC = osm.NodeID(3).FeatureID()
-	wayV  = osm.WayID(5).FeatureID()
-	relQ  = osm.RelationID(6).FeatureID()
-	wayW  = osm.WayID(10).FeatureID()
-	relR  = osm.RelationID(20).FeatureID()
+type (
+	Op     = histsim.Op
+	Family = histsim.Family
 )
 
-// families by name; the tier chooses which to run.
-func family(name string) Family {
-	switch name {
-	case "way2": // way over two nodes, menu with a repeated node and a one-node list
-		return Family{Name: name, Parent: wayW, Children: []osm.FeatureID{nodeA, nodeB}, Names: []string{"A", "B"},
-			Menu: [][]int{{0, 1}, {1, 0}, {0, 1, 0}, {0}}}
-	case "way3": // three nodes, children entering and leaving, either node can be dropped
-		return Family{Name: name, Parent: wayW, Children: []osm.FeatureID{nodeA, nodeB, nodeC}, Names: []string{"A", "B", "C"},
-			Menu: [][]int{{0, 1}, {1, 0}, {0, 1, 0}, {0}, {0, 1, 2}, {2, 1}}}
-	case "rel3": // relation over a node, a way and a relation
-		return Family{Name: name, Parent: relR, Children: []osm.FeatureID{nodeA, wayV, relQ}, Names: []string{"A", "V", "Q"},
-			Menu: [][]int{{0, 1}, {1, 0}, {0, 1, 0}, {1}, {0, 1, 2}, {2}}}
-	case "rel4": // two nodes, a way and a relation
-		return Family{Name: name, Parent: relR, Children: []osm.FeatureID{nodeA, nodeB, wayV, relQ}, Names: []string{"A", "B", "V", "Q"},
-			Menu: [][]int{{0, 2}, {2, 0}, {0, 2, 0}, {2}, {0, 1, 2, 3}, {3, 1}, {2, 3, 2}}}
-	}
-	panic("unknown family " + name)
-}
-
-func (f *Family) isWay() bool { return f.Parent.Type() == osm.TypeWay }
-
-func (f *Family) inList(l, x int) bool {
-	for _, c := range f.Menu[l] {
-		if c == x {
-			return true
-		}
-	}
-	return false
-}
-
-func (f *Family) refs(l int) []osm.FeatureID {
-	out := make([]osm.FeatureID, len(f.Menu[l]))
-	for i, c := range f.Menu[l] {
-		out[i] = f.Children[c]
-	}
-	return out
-}
-
-// Op kinds: one upload each.
-const (
-	opTouch        = iota // new visible version of child X (move / modify / undelete)
-	opTouch2              // two new versions of child X inside one commit (commit-time regime)
-	opEdit                // new visible parent version with child list L (also: undelete of the parent)
-	opTouchEdit           // opTouch(X) and opEdit(L) in one upload, X in L, child stamped Skew*delta from the parent
-	opDeleteEdit          // child X deleted and parent edited to a list without X, one upload
-	opDelete              // child X deleted on its own (a fault if the visible parent still references it)
-	opParentDelete        // parent deleted
-)
-
-var opNames = []string{"touch", "touch2", "edit", "touch+edit", "delete+edit", "delete", "parent-delete"}
-
-// Op is one transition. Gap indexes the regime's gap alphabet.
-type Op struct {
-	Kind int `json:"k"`
-	X    int `json:"x"`
-	L    int `json:"l"`
-	Skew int `json:"s"`
-	Gap  int `json:"g"`
-}
-
-func (o Op) code() uint64 {
-	return uint64(o.Kind) | uint64(o.X)<<4 | uint64(o.L)<<8 | uint64(o.Skew+1)<<12 | uint64(o.Gap)<<16
-}
-
-func (o Op) String(f *Family) string {
-	s := opNames[o.Kind]
-	switch o.Kind {
-	case opTouch, opTouch2, opDelete:
-		s += "(" + f.Names[o.X] + ")"
-	case opEdit:
-		s += "(" + f.listName(o.L) + ")"
-	case opTouchEdit, opDeleteEdit:
-		s += fmt.Sprintf("(%s,%s,skew%+d)", f.Names[o.X], f.listName(o.L), o.Skew)
-	}
-	return s + fmt.Sprintf("@g%d", o.Gap)
-}
-
-func (f *Family) listName(l int) string {
-	s := "["
-	for _, c := range f.Menu[l] {
-		s += f.Names[c]
-	}
-	return s + "]"
-}
-
-// Space is one searched space: a family in a regime with its time alphabet.
+// Space is a histsim.Space plus what only this check needs.
 type Space struct {
-	Fam    Family
-	Regime histsim.Regime
-	Gaps   []time.Duration // gap alphabet; in the pre-commit regime index 0 is "well separated", a 0 gap is "same second"
-	Delta  time.Duration   // pre-commit regime: magnitude of the same-upload skew
-	Skews  []int           // multiples of Delta tried for same-upload children (commit regime: {0})
-	Depth  int
-	Touch2 bool // include several-versions-in-one-commit transitions
-
-	// Version numbering of all elements (histsim.Config): OSM versions need not
-	// start at 1 or be sequential.
-	FirstVersion, VersionStep int
+	histsim.Space
 
 	// ExtraDepth: the withheld-history and child-filter variants (and the
 	// ignore-inconsistency variants on consistent histories) are evaluated at
@@ -138,221 +26,23 @@ type Space struct {
 	ExtraDepth int
 }
 
-// SpaceID is the serialisable identity of a space (for replays).
-type SpaceID struct {
-	Family string  `json:"family"`
-	Regime int     `json:"regime"`
-	GapsMS []int64 `json:"gaps_ms"`
-	DeltaS int64   `json:"delta_s"`
-	Skews  []int   `json:"skews"`
-	Depth  int     `json:"depth"`
-	Extra  int     `json:"extra_depth"`
-	Touch2 bool    `json:"touch2"`
-	FirstV int     `json:"first_version"`
-	StepV  int     `json:"version_step"`
-}
-
-func (s *Space) id() SpaceID {
-	id := SpaceID{Family: s.Fam.Name, Regime: int(s.Regime), DeltaS: int64(s.Delta / time.Second), Skews: s.Skews, Depth: s.Depth, Extra: s.ExtraDepth, Touch2: s.Touch2, FirstV: s.FirstVersion, StepV: s.VersionStep}
-	for _, g := range s.Gaps {
-		id.GapsMS = append(id.GapsMS, int64(g/time.Millisecond))
-	}
-	return id
-}
-
-func spaceFromID(id SpaceID) *Space {
-	s := &Space{Fam: family(id.Family), Regime: histsim.Regime(id.Regime), Delta: time.Duration(id.DeltaS) * time.Second,
-		Skews: id.Skews, Depth: id.Depth, ExtraDepth: id.Extra, Touch2: id.Touch2, FirstVersion: id.FirstV, VersionStep: id.StepV}
-	for _, g := range id.GapsMS {
-		s.Gaps = append(s.Gaps, time.Duration(g)*time.Millisecond)
-	}
-	return s
-}
-
 // keyPrefix is the part of a violation key that names the regime and the
 // parent kind (not the family or the depth: the same defect keeps its key
 // across tiers).
 func (s *Space) keyPrefix() string {
-	if s.Fam.isWay() {
+	if s.Fam.IsWay() {
 		return s.Regime.String() + "/way"
 	}
 	return s.Regime.String() + "/relation"
 }
 
-func (s *Space) name() string {
-	return fmt.Sprintf("%s/%s", s.Regime, s.Fam.Name)
-}
-
-// status is the summary of the current world the transition guards need. It is
-// maintained next to the histsim world (which holds the full ground truth).
-type status struct {
-	vis      [4]bool          // child visible
-	pvis     bool             // parent visible
-	list     int              // menu index of the last visible parent version
-	faults   int              // fault transitions so far
-	grpPar   bool             // the current same-instant group contains a parent version
-	grpMulti bool             // ... contains an upload writing more than one element
-	sinceDel [4]time.Duration // for a deleted child: time since its delete
-}
-
-// thrMax is the largest grouping threshold any variant uses.
-const thrMax = 30 * time.Minute
-
-func (s *Space) initial() (histsim.Upload, status) {
-	f := &s.Fam
-	var u histsim.Upload
-	var st status
-	for i, c := range f.Children {
-		u.Changes = append(u.Changes, histsim.Change{ID: c})
-		st.vis[i] = true
+func (s *Space) label() string {
+	l := fmt.Sprintf("%s/depth%d/gaps%v", s.Name(), s.Depth, s.Gaps)
+	if s.VersionStep > 1 || s.FirstVersion > 1 {
+		l += fmt.Sprintf("/versions%d+%dk", s.FirstVersion, s.VersionStep)
 	}
-	u.Changes = append(u.Changes, histsim.Change{ID: f.Parent, SetRefs: true, Refs: f.refs(f.Init)})
-	st.pvis = true
-	st.list = f.Init
-	st.grpPar, st.grpMulti = true, true
-	return u, st
-}
-
-// upload translates an op into the upload it stands for.
-func (s *Space) upload(o Op) histsim.Upload {
-	f := &s.Fam
-	u := histsim.Upload{Gap: s.Gaps[o.Gap]}
-	skew := time.Duration(o.Skew) * s.Delta
-	switch o.Kind {
-	case opTouch:
-		u.Changes = []histsim.Change{{ID: f.Children[o.X]}}
-	case opTouch2:
-		u.Changes = []histsim.Change{{ID: f.Children[o.X]}, {ID: f.Children[o.X]}}
-	case opEdit:
-		u.Changes = []histsim.Change{{ID: f.Parent, SetRefs: true, Refs: f.refs(o.L)}}
-	case opTouchEdit:
-		u.Changes = []histsim.Change{{ID: f.Children[o.X], Skew: skew}, {ID: f.Parent, SetRefs: true, Refs: f.refs(o.L)}}
-	case opDeleteEdit:
-		u.Changes = []histsim.Change{{ID: f.Children[o.X], Delete: true, Skew: skew}, {ID: f.Parent, SetRefs: true, Refs: f.refs(o.L)}}
-	case opDelete:
-		u.Changes = []histsim.Change{{ID: f.Children[o.X], Delete: true}}
-	case opParentDelete:
-		u.Changes = []histsim.Change{{ID: f.Parent, Delete: true}}
+	if s.Regime == histsim.PreCommit {
+		l += fmt.Sprintf("/skew%v", s.Delta)
 	}
-	return u
-}
-
-// next returns the status after o. ok is false when o is not enabled in st.
-//
-// Guards. Structural: delete only what is visible, delete+edit only drops a
-// child of the current list, touch+edit touches a child of the new list.
-// Pre-commit regime (the documented domain restriction: ground truth must be
-// observable from one-second timestamps): an upload may share the instant of
-// the previous one only if it writes a single element with zero skew and no
-// upload of the group wrote a parent version yet (child-then-parent order
-// only); a new parent version does not reference a child whose delete is at
-// most one threshold old (inside the grouping window a delete is, by design of
-// the heuristic, indistinguishable from a delete that belongs to the parent's
-// own upload).
-func (s *Space) next(st status, o Op) (status, bool) {
-	f := &s.Fam
-	n := st
-	for x := range f.Children {
-		if !st.vis[x] && n.sinceDel[x] < 1000*time.Hour {
-			n.sinceDel[x] += s.Gaps[o.Gap]
-		}
-	}
-	switch o.Kind {
-	case opTouch, opTouch2:
-		n.vis[o.X] = true
-	case opEdit:
-		n.pvis, n.list = true, o.L
-		for _, c := range f.Menu[o.L] {
-			if !st.vis[c] {
-				n.faults++
-				break
-			}
-		}
-	case opTouchEdit:
-		if !f.inList(o.L, o.X) {
-			return st, false
-		}
-		n.vis[o.X] = true
-		n.pvis, n.list = true, o.L
-		for _, c := range f.Menu[o.L] {
-			if !n.vis[c] {
-				n.faults++
-				break
-			}
-		}
-	case opDeleteEdit:
-		if !st.vis[o.X] || !st.pvis || !f.inList(st.list, o.X) || f.inList(o.L, o.X) {
-			return st, false
-		}
-		n.vis[o.X] = false
-		n.list = o.L
-		for _, c := range f.Menu[o.L] {
-			if !n.vis[c] {
-				n.faults++
-				break
-			}
-		}
-	case opDelete:
-		if !st.vis[o.X] {
-			return st, false
-		}
-		n.vis[o.X] = false
-		if st.pvis && f.inList(st.list, o.X) {
-			n.faults++
-		}
-	case opParentDelete:
-		if !st.pvis {
-			return st, false
-		}
-		n.pvis = false
-	}
-	single := o.Kind == opTouch || o.Kind == opEdit || o.Kind == opDelete || o.Kind == opParentDelete
-	parent := o.Kind == opEdit || o.Kind == opTouchEdit || o.Kind == opDeleteEdit || o.Kind == opParentDelete
-	if s.Gaps[o.Gap] == 0 {
-		// same instant as the previous upload (pre-commit regime only)
-		if !single || st.grpPar || st.grpMulti {
-			return st, false
-		}
-	} else {
-		n.grpPar, n.grpMulti = false, false
-	}
-	n.grpPar = n.grpPar || parent
-	n.grpMulti = n.grpMulti || !single
-	if o.Kind == opDelete || o.Kind == opDeleteEdit {
-		n.sinceDel[o.X] = 0
-	}
-	if s.Regime == histsim.PreCommit && parent && n.pvis {
-		for _, c := range f.Menu[n.list] {
-			if !n.vis[c] && n.sinceDel[c] <= thrMax {
-				return st, false
-			}
-		}
-	}
-	return n, true
-}
-
-// ops lists every op of the alphabet (enabled or not) in a fixed order.
-func (s *Space) ops() []Op {
-	f := &s.Fam
-	var out []Op
-	for g := range s.Gaps {
-		for x := range f.Children {
-			out = append(out, Op{Kind: opTouch, X: x, Gap: g})
-			if s.Touch2 {
-				out = append(out, Op{Kind: opTouch2, X: x, Gap: g})
-			}
-			out = append(out, Op{Kind: opDelete, X: x, Gap: g})
-		}
-		for l := range f.Menu {
-			out = append(out, Op{Kind: opEdit, L: l, Gap: g})
-			for x := range f.Children {
-				for _, sk := range s.Skews {
-					out = append(out, Op{Kind: opTouchEdit, X: x, L: l, Skew: sk, Gap: g})
-					out = append(out, Op{Kind: opDeleteEdit, X: x, L: l, Skew: sk, Gap: g})
-				}
-			}
-		}
-		out = append(out, Op{Kind: opParentDelete, Gap: g})
-	}
-	return out
+	return l
 }
